@@ -52,7 +52,9 @@ def cases(rng: random.Random, tier: str) -> List[List[Any]]:
     for v in VALUES + STRINGS:
         for o in res_opts:
             out.append(["resolve", [v, o]])
-    for v in VALUES + [[True, None, "s", [1.0] if False else [1]], {"a": "b", "c": [None]}, "", " ", "\n", "\\"]:
+    quoted = ["it's", 'q"q', "both'\"", "back\\slash", "new\nline", "tab\there", "('y', 'z')", "", " ", "plain"]
+    for v in VALUES + [[True, None, "s", [1]], {"a": "b", "c": [None]}, "", " ", "\n", "\\"] + \
+            [[q] for q in quoted] + [{q: q} for q in quoted] + [{"$": "tuple", "v": [q, [q]]} for q in quoted]:
         out.append(["pyStr", [v]])
     eqs = [None, True, False, 0, 1, 2, "", "1", "True", [], [1], [True], {}, {"a": 1}, {"a": True}, "x"]
     for a in eqs:
@@ -108,7 +110,13 @@ for line in sys.stdin:
             except RecursionError:
                 r = ["err", "fuel"]
         elif name == "pyStr":
-            r = ["ok", str(args[0])]
+            def dec(j):
+                if isinstance(j, list): return [dec(x) for x in j]
+                if isinstance(j, dict):
+                    if j.get("$") == "tuple": return tuple(dec(x) for x in j["v"])
+                    return {k: dec(v) for k, v in j.items()}
+                return j
+            r = ["ok", str(dec(args[0]))]
         elif name == "pyEq":
             r = ["ok", bool(args[0] == args[1])]
         else:
